@@ -212,6 +212,13 @@ example : (matchList f4Ps [0, 1, 2]).map (fun d => (lookup d 0, lookup d 5)) =
 private def exPs : List LPat :=
   [.elem (.cap 0 .any), .qs { mn := 0, mx := none, greedy := false } .any,
    .qs { mn := 1, mx := some 2, greedy := true, tag := some 1 } (.ref 0), .elem (.lit 1)]
+-- a back-reference to a capture made inside a keyword member of MAND: `.*?(?P<k>(?P<v>.))(?P=v).*` on [b, a, a]
+private def exAnd : List LPat :=
+  [.qs { mn := 0, mx := none, greedy := false } .any, .elem (.and2 none .any (some 1) (.cap 0 .any)), .elem (.ref 0),
+   .qs { mn := 0, mx := none, greedy := true } .any]
+example : exAnd.all simpleItem = true ∧
+    (matchList exAnd [1, 0, 0]).map (fun d => (lookup d 0, lookup d 1)) = some (some (.elem 1 0), some (.elem 1 0)) ∧
+    matchList exAnd [0, 1, 0] = none := by decide +kernel
 example : exPs.all simpleItem = true := by decide
 example : (matchList exPs [0, 2, 0, 0, 1]).isSome = true ∧ matchList exPs [0, 2, 0, 2, 1] = none := by decide +kernel
 example : (allMatches exPs [0, 0, 0, 0, 1]).length = 2 := by decide +kernel
